@@ -106,7 +106,7 @@ func (g *SimRelayGen) AllocateConn(c turn.AllocateConnConfig) (net.Conn, error) 
 	if la == nil || ra == nil {
 		return nil, fmt.Errorf("simgen: bad addresses")
 	}
-	conn, err := g.W.Net.Dial("relay-out", &net.TCPAddr{IP: la.IP, Port: 0}, ra, 10*time.Second)
+	conn, err := g.W.Net.Dial("relay-out", &net.TCPAddr{IP: la.IP, Port: 0}, ra, 0)
 	if err != nil {
 		return nil, err
 	}
